@@ -293,8 +293,10 @@ fn run_m<M: RawMutex + 'static>(cfg: &Cfg, ops: &[Op], run: &mut Run) {
                             match r {
                                 Ok(()) => {
                                     if m.st != St::Open {
+                                        // C12 itself says that a send after a close fails; whether the channel counts as
+                                        // closed (explicit close or last handle of a side dropped) is C11's business
                                         let (p, kd) = if m.st == St::Sent { ("C12", "second-send-accepted") } else { ("C11", "send-after-close-accepted") };
-                                        run.violate(p, kd, format!("send(v{}) succeeded although the channel was already {}", id, if m.st == St::Sent { "used by an earlier send" } else { "closed" }));
+                                        run.violate2(p, "C12", kd, format!("send(v{}) succeeded although the channel was already {}", id, if m.st == St::Sent { "used by an earlier send" } else { "closed" }));
                                     } else {
                                         if pend_unwoken >= 2 {
                                             run.class(CL_TWO_PENDING_AT_SEND);
@@ -449,8 +451,9 @@ fn run_m<M: RawMutex + 'static>(cfg: &Cfg, ops: &[Op], run: &mut Run) {
                         Some(Poll::Pending) => {
                             run.note(|| format!("poll slot {} waker {} -> Pending", s, op.b));
                             if m.st != St::Open {
-                                run.violate(
+                                run.violate2(
                                     if m.st == St::Sent { "C12" } else { "C11" },
+                                    "C12",
                                     "pending-on-finished-channel",
                                     format!("receive in slot {} returned Pending although the channel is {}", s, if m.st == St::Sent { "fulfilled" } else { "closed" }),
                                 );
@@ -662,8 +665,10 @@ fn monitors<M: RawMutex + 'static>(chan: &Chan<M>, m: &Model, slots: &[Slot<RFut
     if m.st != St::Open {
         for (i, s) in slots.iter().enumerate() {
             if s.pending() && !s.woken() {
-                run.violate(
+                // C12: "every receiver pending at the moment of the send or close has been woken"
+                run.violate2(
                     if m.st == St::Sent { "C12" } else { "C11" },
+                    "C12",
                     "not-woken",
                     format!("slot {} is pending on a {} channel and has not been woken through its latest waker", i, if m.st == St::Sent { "fulfilled" } else { "closed" }),
                 );
